@@ -861,6 +861,9 @@ class Interp:
         if isinstance(base, (DictVal, SeqVal, Const, FuncVal, UserFn, BoundExt)):
             if isinstance(base, FuncVal) and attr == "__name__":
                 return Const(base.fn.name)
+            if isinstance(base, Const) and base.value is None and not attr.startswith("__"):
+                # None has no such attribute: the statement ends with AttributeError (a drain that wakes a fire-and-forget item's missing event, mutscan 4)
+                raise _Raise(Obj(None, builtin_cls="builtins.AttributeError", label=f"AttributeError@None.{attr}"), self.site(node))
             return BoundExt(base, attr)
         if isinstance(base, AbstractExc):
             ci = self.prog.classes.get(base.base_fq)
